@@ -5,6 +5,7 @@ import PqV.Lemmas.KPlain
 import PqV.Gen.RangeIndex
 import PqV.Lemmas.SkipDef
 import PqV.Lemmas.ReadPage
+import PqV.Gen.ReadGuards
 /-!
 # C01 — write → read round trip under every write option
 
@@ -181,6 +182,16 @@ theorem read_back_written_page (c : ColSpec) (hv : c.v2 = false) (hpt : c.ptype 
         (writerPageBody c cells)).bind (placePage (leafOf c).maxDef (dictOf c cats))
       = some (cells.map (render c cats)) :=
   Impl.read_back_written_page c hv hpt cats cells hok skip hskip hitem
+
+/-- **when the reader steps over the level block, as the code has it now** (REGENERATED from `core.read_col` /
+    `read_data_page`): `skip_nulls` is set only for a fastparquet-written chunk whose statistics record `null_count == 0`, and
+    it is used only for a column that is not REQUIRED; the byte-exact code path is taken only for 8/16/32-bit indices of a
+    fastparquet-written file.  These are the hypotheses `skip = true → no null` and `selfmade` of `read_back_written_page`
+    (the writer records the exact null count: C04 `null_count_exact`). -/
+theorem read_guards_now :
+    PqV.Gen.ReadGuards.skipGuard = ["selfmade", "hasattr(cmd, 'statistics')", "getattr(cmd.statistics, 'null_count', 1) == 0"] ∧
+    PqV.Gen.ReadGuards.skipUse = ["skip_nulls and (not helper.is_required(metadata.path_in_schema))"] ∧
+    PqV.Gen.ReadGuards.codeFastPath = ["bit_width in [8, 16, 32] and selfmade"] := by decide
 
 /-- **… and at column-chunk level**: whatever way the rows are cut into pages, reading the pages in order and
     concatenating what is placed gives the column. -/
